@@ -2,11 +2,9 @@ package http3
 
 import (
 	"bytes"
-	"context"
 	"errors"
 	"fmt"
 	"io"
-	"net/http"
 	"testing"
 	"testing/synctest"
 
@@ -494,180 +492,7 @@ func c35RefControl(b []byte, fin bool, info *c35RefInfo) (verdict int, why strin
 // running
 // ---------------------------------------------------------------------------
 
-type c35ReadResult struct {
-	data  []byte
-	err   error
-	calls int
-}
-
-func c35ReadBody(r io.Reader, sizes []int) (res c35ReadResult) {
-	buf := make([]byte, 8192)
-	zero := 0
-	for i := 0; i < 200000; i++ {
-		n := len(buf)
-		if len(sizes) > 0 {
-			n = sizes[i%len(sizes)]
-			if n > len(buf) {
-				n = len(buf)
-			}
-		}
-		m, err := r.Read(buf[:n])
-		res.calls++
-		if m < 0 || m > n {
-			res.err = fmt.Errorf("harness: Read returned n=%d for a %d-octet buffer", m, n)
-			return res
-		}
-		res.data = append(res.data, buf[:m]...)
-		if err != nil {
-			res.err = err
-			return res
-		}
-		if m == 0 {
-			if zero++; zero > 64 {
-				res.err = fmt.Errorf("harness: Read returned (0, nil) 64 times in a row")
-				return res
-			}
-		} else {
-			zero = 0
-		}
-	}
-	res.err = fmt.Errorf("harness: body did not end after 200000 reads")
-	return res
-}
-
-func c35WriteChunks(st *stream, wire []byte, chunks []int) {
-	for i := 0; len(wire) > 0; i++ {
-		n := len(wire)
-		if len(chunks) > 0 {
-			if i >= len(chunks) {
-				// the rest in one write
-			} else if chunks[i] < n {
-				n = chunks[i]
-			}
-		}
-		st.Write(wire[:n])
-		st.Flush()
-		wire = wire[n:]
-		synctest.Wait()
-	}
-}
-
-func c35Alive(qc *quic.Conn) (bool, error) {
-	err := qc.Wait(canceledCtx)
-	return errors.Is(err, context.Canceled), err
-}
-
-// c35Server is a real server with a handler that reads the request body as told.
-type c35Server struct {
-	ts    *testServer
-	sizes []int
-	res   *c35ReadResult
-	calls int
-}
-
-func c35NewServer(t *testing.T) *c35Server {
-	s := &c35Server{}
-	s.ts = newTestServer(t, http.HandlerFunc(func(w http.ResponseWriter, r *http.Request) {
-		s.calls++
-		res := c35ReadBody(r.Body, s.sizes)
-		s.res = &res
-		w.WriteHeader(200)
-	}))
-	return s
-}
-
-// request sends one request (first HEADERS frame with the field section sec, then wire,
-// then FIN) and returns what the handler's body reads produced.
-func (s *c35Server) request(tc *testServerConn, sec, wire []byte, chunks, sizes []int) (*c35ReadResult, error) {
-	s.sizes, s.res = sizes, nil
-	before := s.calls
-	rs := tc.newStream(streamTypeRequest)
-	var hdr []byte
-	hdr = vpVarint(hdr, 1, 0)
-	hdr = vpVarint(hdr, uint64(len(sec)), 0)
-	hdr = append(hdr, sec...)
-	rs.Write(hdr)
-	if chunks != nil {
-		rs.stream.Flush()
-		synctest.Wait()
-	}
-	c35WriteChunks(rs.stream, wire, chunks)
-	rs.stream.stream.CloseWrite()
-	synctest.Wait()
-	res := s.res
-	rs.stream.stream.CloseRead()
-	synctest.Wait()
-	if s.calls == before {
-		return nil, nil
-	}
-	if res == nil {
-		return nil, fmt.Errorf("the handler's body read is still blocked after the request stream was closed")
-	}
-	return res, nil
-}
-
-func c35RequestSection(t testing.TB) []byte {
-	return (&testQUICStream{t: t}).encodeHeaders(http.Header{":method": {"POST"}, ":scheme": {"https"}, ":path": {"/"}, ":authority": {"example.tld"}})
-}
-
-// c35ClientExchange makes the real client send a GET and answers it with pre,
-// a HEADERS frame (:status 200), wire and FIN; it returns what reading the response
-// body produced.
-func c35ClientExchange(tc *testClientConn, pre, wire []byte, chunks, sizes []int) (*c35ReadResult, error) {
-	req, _ := http.NewRequest("GET", "https://example.tld/", nil)
-	rt := tc.roundTrip(req)
-	synctest.Wait()
-	if len(tc.streams[streamTypeRequest]) == 0 {
-		if rt.done() {
-			return nil, fmt.Errorf("RoundTrip failed before sending a request: %v", rt.respErr)
-		}
-		return nil, fmt.Errorf("the client did not open a request stream")
-	}
-	st := tc.wantStream(streamTypeRequest)
-	sec := st.encodeHeaders(http.Header{":status": {"200"}})
-	hdr := bytes.Clone(pre)
-	hdr = vpVarint(hdr, 1, 0)
-	hdr = vpVarint(hdr, uint64(len(sec)), 0)
-	hdr = append(hdr, sec...)
-	st.Write(hdr)
-	if chunks != nil {
-		st.stream.Flush()
-		synctest.Wait()
-	}
-	c35WriteChunks(st.stream, wire, chunks)
-	st.stream.stream.CloseWrite()
-	synctest.Wait()
-	if !rt.done() {
-		return nil, fmt.Errorf("RoundTrip has not returned although the response HEADERS and the end of the stream were sent")
-	}
-	if rt.respErr != nil {
-		return nil, fmt.Errorf("RoundTrip failed on a well-formed response HEADERS frame (after %d unknown-type frames): %v", len(pre), rt.respErr)
-	}
-	var res *c35ReadResult
-	var perr error
-	go func() {
-		defer func() {
-			if p := recover(); p != nil {
-				perr = fmt.Errorf("panic while reading or closing the response body: %v", p)
-			}
-		}()
-		r := c35ReadBody(rt.resp.Body, sizes)
-		rt.resp.Body.Close()
-		res = &r
-	}()
-	synctest.Wait()
-	st.stream.stream.CloseRead()
-	synctest.Wait()
-	if perr != nil {
-		return nil, perr
-	}
-	if res == nil {
-		return nil, fmt.Errorf("the response body read is still blocked after the response stream was closed")
-	}
-	return res, nil
-}
-
-func c35Judge(what string, outs []c35Outcome, res *c35ReadResult) error {
+func c35Judge(what string, outs []c35Outcome, res *vpReadResult) error {
 	for _, o := range outs {
 		if c35Matches(o, res.data, res.err) {
 			return nil
@@ -681,7 +506,7 @@ func c35Judge(what string, outs []c35Outcome, res *c35ReadResult) error {
 	return fmt.Errorf("%s: body reads returned %d octets %.60x then %v (%T); allowed: %v", what, len(res.data), res.data, res.err, res.err, allowed)
 }
 
-func c35Same(a, b *c35ReadResult) bool {
+func c35Same(a, b *vpReadResult) bool {
 	if !bytes.Equal(a.data, b.data) {
 		return false
 	}
@@ -695,19 +520,19 @@ func c35Run(t *testing.T, c c35Case, r *vp.Rec) error {
 	r.Classf("side:%d", c.Side)
 	switch c.Side {
 	case 0:
-		srv := c35NewServer(t)
+		srv := vpNewServer(t)
 		tc := srv.ts.connect()
 		tc.greet()
-		sec := c35RequestSection(t)
+		sec := vpRequestSection(t, nil)
 		if c.Init != nil {
 			r.Class("hostile-first-HEADERS")
 			_, err := srv.request(tc, c.Init, wire, c.Chunks, c.Reads)
 			return err
 		}
 		outs := c35RefBody(wire, &info)
-		var results []*c35ReadResult
+		var results []*vpReadResult
 		for v, chunks := range [][]int{nil, c.Chunks} {
-			if ok, _ := c35Alive(tc.qconn); !ok {
+			if ok, _ := vpAlive(tc.qconn); !ok {
 				tc = srv.ts.connect()
 				tc.greet()
 			}
@@ -733,11 +558,11 @@ func c35Run(t *testing.T, c c35Case, r *vp.Rec) error {
 			pre = c35FrameBytes(pre, f)
 		}
 		outs := c35RefBody(wire, &info)
-		var results []*c35ReadResult
+		var results []*vpReadResult
 		var tc *testClientConn
 		for v, chunks := range [][]int{nil, c.Chunks} {
 			if tc != nil {
-				if ok, _ := c35Alive(tc.qconn); !ok {
+				if ok, _ := vpAlive(tc.qconn); !ok {
 					tc = nil
 				}
 			}
@@ -745,7 +570,7 @@ func c35Run(t *testing.T, c c35Case, r *vp.Rec) error {
 				tc = newTestClientConn(t)
 				tc.greet()
 			}
-			res, err := c35ClientExchange(tc, pre, wire, chunks, c.Reads)
+			res, err := vpClientExchange(tc, nil, pre, wire, chunks, c.Reads)
 			if err != nil {
 				return fmt.Errorf("response body %x (variant %d): %v", wire, v, err)
 			}
@@ -764,11 +589,11 @@ func c35Run(t *testing.T, c c35Case, r *vp.Rec) error {
 	case 2, 3:
 		verdict, why := c35RefControl(wire, c.Fin, &info)
 		var raw *testQUICConn
-		var srv *c35Server
+		var srv *vpServer
 		var stc *testServerConn
 		var ctc *testClientConn
 		if c.Side == 2 {
-			srv = c35NewServer(t)
+			srv = vpNewServer(t)
 			stc = srv.ts.connect()
 			raw = stc.testQUICConn
 		} else {
@@ -776,12 +601,12 @@ func c35Run(t *testing.T, c c35Case, r *vp.Rec) error {
 			raw = ctc.testQUICConn
 		}
 		ctl := raw.newStream(streamTypeControl)
-		c35WriteChunks(ctl.stream, wire, c.Chunks)
+		vpWriteChunks(ctl.stream, wire, c.Chunks)
 		if c.Fin {
 			ctl.stream.stream.CloseWrite()
 		}
 		synctest.Wait()
-		alive, cerr := c35Alive(raw.qconn)
+		alive, cerr := vpAlive(raw.qconn)
 		switch verdict {
 		case c35CtlAlive:
 			if !alive {
@@ -793,15 +618,15 @@ func c35Run(t *testing.T, c c35Case, r *vp.Rec) error {
 			w = vpVarint(w, 0, 0)
 			w = vpVarint(w, uint64(len(body)), 0)
 			w = append(w, body...)
-			var res *c35ReadResult
+			var res *vpReadResult
 			var err error
 			if c.Side == 2 {
-				res, err = srv.request(stc, c35RequestSection(t), w, nil, nil)
+				res, err = srv.request(stc, vpRequestSection(t, nil), w, nil, nil)
 				if err == nil && res == nil {
 					err = fmt.Errorf("handler not called")
 				}
 			} else {
-				res, err = c35ClientExchange(ctc, nil, w, nil, nil)
+				res, err = vpClientExchange(ctc, nil, nil, w, nil, nil)
 			}
 			if err != nil {
 				return fmt.Errorf("control stream %x (%s): exchange afterwards failed: %v", wire, why, err)
@@ -835,7 +660,7 @@ func c35Run(t *testing.T, c c35Case, r *vp.Rec) error {
 	return nil
 }
 
-func c35Classes(r *vp.Rec, info *c35RefInfo, outs []c35Outcome, res *c35ReadResult) {
+func c35Classes(r *vp.Rec, info *c35RefInfo, outs []c35Outcome, res *vpReadResult) {
 	if info.UnknownBetweenData {
 		r.Class("unknown-frame-between-DATA")
 		r.NonTrivial()
@@ -893,6 +718,25 @@ func c35Prop(c c35Case, r *vp.Rec) error {
 
 // c35Known names the known findings a case would hit.
 func c35Known(c c35Case) string {
+	// c35-frame-overread-nils-stream: stream.recordBytesRead sets st.stream = nil when a
+	// read passes the frame limit; every later use of the stream (handleStreamError,
+	// responseWriter.close, bodyReader.Close, transportResponseBody.Close) then
+	// dereferences nil. Reached by a complete HEADERS frame (first or trailers) whose
+	// QPACK field section needs more octets than the frame has.
+	if c.Side > 1 {
+		return ""
+	}
+	if c.Init != nil {
+		if ref := c33RefDecode(c.Init, len(c.Init)); ref.Verdict == c33Reject && ref.SawTrunc {
+			return "c35-frame-overread-nils-stream"
+		}
+		return ""
+	}
+	var info c35RefInfo
+	c35RefBody(c35Wire(c), &info)
+	if info.QPACKOverread {
+		return "c35-frame-overread-nils-stream"
+	}
 	return ""
 }
 
